@@ -44,12 +44,13 @@ func (check) Cases(tier string) int {
 const typeGroup = 4
 
 func (check) Rule() string {
-	return "one (type, pre-fill, configuration) triple per case. Type: derived from idx/4 (4 consecutive cases share it); 7 in 8 generated with reflect.StructOf (3-8 top-level fields, nesting depth <= 2; kinds bool, int/8/16/32/64, uint/8/16/32/64, float32/64, string, time.Duration, pointers to those, nested structs by value / by pointer / inline (inline, squash), []T and [N]T of primitives, []struct, []*struct, map[string]T, map[string]*struct, map[string]struct; config tags with and without rename, ignore, merge/replace/append/prepend on lists and -- 1 in 3 -- replace/append/prepend on struct-typed fields, validate tags min/max/positive/nonzero on fields that exist before Unpack; the hand-written LibConn, LibLimits, LibPlain (unexported fields, an embedded unexported struct, ignored fields, InitDefaults unconditional / conditional / touching an unexported field, Validate method) and LibPort (primitive with InitDefaults) as ordinary fields by value and by pointer), 1 in 8 the hand-written LibTop. Pre-fill: every field non-zero w.p. 2/3 (nil and empty slices/maps, nil pointers otherwise; validated fields always valid). Configuration: nested map[string]interface{} through NewFrom(PathSep(\".\")), every field path mentioned w.p. 1/2 (1 in 16 of those with an explicit null), numbers as int/int64/uint64/float64/decimal string, durations as string/seconds, ignored and unexported names mentioned w.p. 1/3 with arbitrary data, map settings over a 5-key pool shared with the pre-fill. Success half: Unpack into a deep copy under each of none / AppendValues / PrependValues / ReplaceValues / ReplaceArrValues, compare field-path-wise with the model. Failure half (under one of the five options, drawn per case): for every configurable field position in declaration order (nested, inline and pointee positions included) one fault at a time (up to two different ones per position: unparsable string, overflow, negative into unsigned, bool/object/list into primitive, string into struct/map, wrong array length, faulty list element / struct-list element / map value, failing validate tag, failing Validate method) is grafted onto the configuration and the struct passed in is compared with its snapshot. Plus per case a top-level []int / []string target and a top-level map[string]int target under the drawn option. Non-trivial = the type has >= 3 configurable leaf fields, the configuration mentions >= 1 and leaves out >= 1 of them; distinct = distinct (type, pre-fill, configuration, drawn option)."
+	return "one (type, pre-fill, configuration) triple per case. Type: derived from idx/4 (4 consecutive cases share it); 7 in 8 generated with reflect.StructOf (3-8 top-level fields, nesting depth <= 2; kinds bool, int/8/16/32/64, uint/8/16/32/64, float32/64, string, time.Duration, pointers to those, nested structs by value / by pointer / inline (inline, squash), []T and [N]T of primitives, []struct, []*struct, map[string]T, map[string]*struct, map[string]struct; *ucfg.Config fields (pre-filled from a random object or list tree over a 4-key pool, or nil), config tags with and without rename, ignore, merge/replace/append/prepend on lists and *Config fields and -- 2 in 5 -- merge/replace/append/prepend on struct-typed fields (by value, by pointer, inline; merge twice as often as each other option, because it only shows against an outer policy), validate tags min/max/positive/nonzero on fields that exist before Unpack; the hand-written LibConn, LibLimits, LibPlain (unexported fields, an embedded unexported struct, ignored fields, InitDefaults unconditional / conditional / touching an unexported field, Validate method) and LibPort (primitive with InitDefaults) as ordinary fields by value and by pointer), 1 in 8 the hand-written LibTop. Pre-fill: every field non-zero w.p. 2/3 (nil and empty slices/maps, nil pointers otherwise; validated fields always valid). Configuration: nested map[string]interface{} through NewFrom(PathSep(\".\")), every field path mentioned w.p. 1/2 (1 in 16 of those with an explicit null), numbers as int/int64/uint64/float64/decimal string, durations as string/seconds, ignored and unexported names mentioned w.p. 1/3 with arbitrary data, map settings over a 5-key pool shared with the pre-fill, *Config settings as object / list trees of the shape the field already holds over the key pool of the pre-fill (depth <= 3, primitives, lists of primitives, lists of objects). Success half: Unpack into a deep copy under each of none / AppendValues / PrependValues / ReplaceValues / ReplaceArrValues, compare field-path-wise with the model. Failure half (under one of the five options, drawn per case): for every configurable field position in declaration order (nested, inline and pointee positions included) one fault at a time (up to two different ones per position: unparsable string, overflow, negative into unsigned, bool/object/list into primitive, string into struct/map, primitive into *Config, wrong array length, faulty list element / struct-list element / map value, failing validate tag, failing Validate method) is grafted onto the configuration and the struct passed in is compared with its snapshot. Plus per case a top-level []int / []string target and a top-level map[string]int target under the drawn option. Non-trivial = the type has >= 3 configurable leaf fields, the configuration mentions >= 1 and leaves out >= 1 of them; distinct = distinct (type, pre-fill, configuration, drawn option)."
 }
 
 func (check) Assumptions() []string {
 	return []string{
-		"active list policy = the field's own tag option (merge = index-wise), else the tag option of the nearest enclosing struct-typed field (doc comment of Unpack: the tag options overwrite the global strategy 'for all sub-fields'), else the global option, else index-wise; ReplaceArrValues is modelled as replace for lists (its own doc comment says it applies to unpacking)",
+		"active policy = the field's own tag option (merge = index-wise), else the tag option of the nearest enclosing struct-typed field (doc comment of Unpack: the tag options overwrite the global strategy 'for all sub-fields'; merge is taken to be a tag option like the other three: below a field tagged merge lists are merged index-wise again whatever the global option says), else the global option, else index-wise; ReplaceArrValues is modelled as replace for lists (its own doc comment says it applies to unpacking)",
+		"a *Config field the configuration mentions holds afterwards what the merge model of C01 (internal/model.Merge: union of dictionaries, lists per policy, replace drops the old dictionary) gives for (tree it held, setting, active policy), a nil field the setting itself; contents are observed through Unpack into a map and into a slice and compared in canonical form; the setting has the shape (object / list) of what the field holds; whether a mentioned *Config field keeps its identity is not compared, an unmentioned one must keep identity and contents",
 		"InitDefaults is modelled only where the doc comment states it: the top-level struct, struct-typed fields by value (also without a setting), pointer fields only when the configuration has a setting for them, primitives with InitDefaults; all InitDefaults of the hand-written types are idempotent, the primitive one is a constant, so neither the number of calls nor the value it is called on (pre-filled or zero) is pinned",
 		"an explicit null is 'no setting'; an empty object or empty list is never generated; null elements inside lists are never generated",
 		"expected values of primitives come from the generator (value and its configuration spelling are drawn together); conversions proper are C03's business: only exact ones are used (floats are multiples of 1/4 or float64 literals into float64, durations whole or quarter seconds)",
@@ -341,7 +342,7 @@ func stripNoise(c *cval) *cval {
 type runner struct {
 	res     *harness.R
 	top     *stype
-	master  reflect.Value // the pre-filled value; never handed to Unpack
+	master  reflect.Value           // the pre-filled value; never handed to Unpack
 	cfgs    map[uintptr]*model.Node // the trees of the pre-filled *Config fields of master
 	gopt    globalOpt
 	verbose bool
@@ -559,6 +560,9 @@ func (rn *runner) listMonitors(st *stype, c *cval, pre reflect.Value, pc polCtx)
 				// a tag option decides against the policy that would be in force without it
 				rn.res.Ev("list_settings_where_tag_overrides_outer_policy", 1)
 				rn.res.SetAdd("tag_overrides_outer_policy", "list:"+fpc.src+":"+tagName(fpc.pol)+"-over-"+fpc.over)
+				if fpc.pol == "default" {
+					rn.res.Ev("list_settings_where_merge_tag_overrides_outer_policy", 1)
+				}
 			}
 		case kConfig:
 			state := "onto-filled"
@@ -574,6 +578,9 @@ func (rn *runner) listMonitors(st *stype, c *cval, pre reflect.Value, pc polCtx)
 			if fpc.overridesOuter() && state == "onto-filled" {
 				rn.res.Ev("config_settings_where_tag_overrides_outer_policy", 1)
 				rn.res.SetAdd("tag_overrides_outer_policy", "config:"+fpc.src+":"+tagName(fpc.pol)+"-over-"+fpc.over)
+				if fpc.pol == "default" {
+					rn.res.Ev("config_settings_where_merge_tag_overrides_outer_policy", 1)
+				}
 			}
 		}
 	}
